@@ -85,6 +85,15 @@ def check_c13(pid, tier, seed, qv):
         work.append((g, pool, hs, None))
     for g, pool in clone_family():
         work.append((g, pool, [list(range(len(pool))), list(reversed(range(len(pool))))], ["clone", "value"]))
+    # a memoized left-recursive step and a clone of it (Memoized::clone: same cache key) both inside the recursion: the clone must
+    # recognise the original's in-progress marker as its own
+    for op in (43, 42):
+        for via in (["Var", 0], ["MapCtx", "FId", ["Var", 0]]):
+            step = ["Then", via, ["Then", ["Just", [op]], ["Just", [A]]]]
+            for g in (["Rec", ["Or", ["Memo", 901, step], ["Or", ["Memo", 901, step], ["Just", [A]]]]],
+                      ["Rec", ["Or", ["Then", ["Memo", 902, step], ["Just", [B]]], ["Or", ["Memo", 902, step], ["Just", [A]]]]]):
+                pool = [[A], [A, op, A], [A, op, A, op, A], [A, op, A, op, A, op, A], [A, op, A, B], [A, op], []]
+                work.append((g, pool, [list(range(len(pool))), list(reversed(range(len(pool))))], ["clone", "value"]))
     for gi, (g, pool, hs, ws) in enumerate(work):
         ik = rng.choice(["str", "slice"])
         ek = "rich" if rng.random() < 0.8 else "simple"
